@@ -911,15 +911,21 @@ def _align_of(it, key, a, ce):
 # ------------------------------------------------------------------ clone / default of plain data
 @prefix("core::clone::impls::<impl core::clone::Clone for ")
 def _clone_prim(it, key, a, ce):
-    return it.deref_read(a[0], it.ty.get(_argty(it, ce, key))["pointee"]) if False else _deref_any(it, a[0])
+    return _deref_any(it, a[0], it.dest_ty)
 
 
-def _deref_any(it, p):
+def _deref_any(it, p, t=None):
+    """Value behind a thin pointer.  For a pointer into a run of elements the pointee is the element,
+    unless the pointer is a cast view (vty) or the caller knows the pointee type t."""
     if not isinstance(p, Ptr):
         raise Undecided("clone of non-pointer")
     if p.idx is not None:
         if p.meta is not None:
             raise Undecided("clone of slice")
+        if t is not None and p.ety is not None and t != p.ety and it.ty.get(t) != it.ty.get(p.ety):
+            return it.deref_read(p, t)
+        if p.vty is not None and p.vty != p.ety:
+            return it.deref_read(p, p.vty)
         arr = it.read_path(p.cell.v, p.path)
         return arr.f[p.idx]
     return it.read_path(p.cell.v, p.path)
@@ -927,9 +933,10 @@ def _deref_any(it, p):
 
 @model("core::array::<impl core::clone::Clone for [T; N]>::clone", "core::clone::Clone::clone",
        "<block_buffer::BlockBuffer<BlockSize> as core::clone::Clone>::clone",
-       "<generic_array::GenericArray<T, N> as core::clone::Clone>::clone")
+       "<generic_array::GenericArray<T, N> as core::clone::Clone>::clone",
+       "generic_array::impls::<impl core::clone::Clone for generic_array::GenericArray<T, N>>::clone")
 def _clone_copy(it, key, a, ce):
-    return _deref_any(it, a[0])
+    return _deref_any(it, a[0], it.dest_ty)
 
 
 @model("<core::marker::PhantomData<T> as core::clone::Clone>::clone",
@@ -1484,8 +1491,22 @@ def _call_fn(it, f, args, fty):
     if d["kind"] == "closure":
         # find the closure body instance: its key starts with the closure def path
         cands = [k for k in it.ins if it.ins[k]["def"] == d["def"]]
+        if len(cands) > 1:
+            # several monomorphic copies: the body whose self parameter has exactly this closure type
+            def self_ty(k):
+                b = it.ins[k].get("body")
+                t = b["locals"][1] if b and len(b["locals"]) > 1 else ""
+                for pre in ("&mut ", "&"):
+                    if t.startswith(pre):
+                        t = t[len(pre):]
+                return t
+            cands = [k for k in cands if self_ty(k) == fty]
         if len(cands) == 1:
-            return it.call_instance(cands[0], [f] + args)
+            b = it.ins[cands[0]].get("body")
+            recv = f
+            if b and len(b["locals"]) > 1 and b["locals"][1].startswith("&") and not isinstance(f, Ptr):
+                recv = Ptr(it.new_cell(f, "closure"), ())      # Fn / FnMut bodies take the closure by reference
+            return it.call_instance(cands[0], [recv] + args)
         raise Undecided("closure body lookup for %s: %d candidates" % (d["def"], len(cands)))
     raise Undecided("call of %r" % (f,))
 
@@ -1576,7 +1597,7 @@ def _read_from_bytes(it, key, a, ce):
 @model("zerocopy::IntoBytes::write_to")
 def _write_to(it, key, a, ce):
     t = ce["generic_args"][0]["ty"]
-    v = _deref_any(it, a[0])
+    v = _deref_any(it, a[0], t)
     d = _as_slice(it, a[1])
     bits = it.to_bits(v, t)
     if d.meta * 8 != len(bits):
@@ -1790,6 +1811,25 @@ def _iter_method(it, key, a, ce):
     if name in ("size_hint", "len"):
         raise Undecided("Iterator::%s" % name)
     raise Undecided("iterator method %s on a modelled iterator" % name)
+
+
+@model("core::array::<impl [T; N]>::map")
+def _array_map(it, key, a, ce):
+    ga = ce["generic_args"]
+    arr_t = it.ins[key]["body"]["locals"][1] if key in it.ins and it.ins[key].get("body") else None
+    v = a[0]
+    if not isinstance(v, Agg):
+        if arr_t is None:
+            raise Undecided("array::map on an unstructured array")
+        v = it.as_agg(v, arr_t)
+    return Agg([_call_fn(it, a[1], [x], ga[2]["ty"]) for x in v.f])
+
+
+@model("core::array::from_fn")
+def _array_from_fn(it, key, a, ce):
+    ga = ce["generic_args"]
+    n = int(ga[1]["int"])
+    return Agg([_call_fn(it, a[0], [bv.const(i, 64)], ga[2]["ty"]) for i in range(n)])
 
 
 @model("core::array::iter::<impl core::iter::traits::collect::IntoIterator for [T; N]>::into_iter")
